@@ -240,6 +240,7 @@ def run(ctx):
     c11.check_rows(ctx, "C16.9")
     c01.check_der(ctx, "C16.9")
     check_multikey_order(ctx)
+    check_pubkey_form(ctx)
     c01.check_sig_modes(ctx, "C16.9")  # every signature of send_tx is made by bits.sig: digest = HASH256(message || type), type byte appended
     c05.check_writer(ctx, "C16.9")
     from . import c14
@@ -275,6 +276,40 @@ def check_multikey_order(ctx, oid="C16.10"):
         R.check(oid, "PROV", fi, "sender kind %s with two keys: signatures made with the caller's keys in the caller's order (%d signing sites)" % (kind, len(sites)),
                 bool(sites) and not bad, "the keys at a signing site are %s, not [key 0, key 1] as given" % ([tm.show(k)[:90] for k in bad[0]] if bad else "missing"),
                 example="a 2-of-3 script whose public keys are not in lexicographic order")
+    ev.assumptions, ev.bind = {}, {}
+
+
+def check_pubkey_form(ctx, oid="C16.11"):
+    """The public key a send reveals must be the one the spent output commits to: a P2PKH output commits to HASH160 of the
+    compressed OR the uncompressed key, and which one is what the WIF suffix says (01 = compressed); witness programs always
+    commit to the compressed key. Every bits.keys.pub call of the signing scenario: key = the decoded WIF key, and
+    compressed = bool(WIF suffix) for p2pkh, True for p2wpkh / p2sh-p2wpkh."""
+    R = ctx.R
+    fi = ctx.fn("bits.tx.send_tx")
+    ev = ctx.evaluator(opaque=OPQ)
+    sk = P("sender_keys", tm.LIST)
+    flag = P("sighash_flag", tm.ANY)
+    dec = tm.app("bits.utils.wif_decode", [tm.idx(sk, 0), True], ty=tm.ANY)
+    kind_t = T("field", (dec, "addr_type"))
+    keys_ = [tm.unhex(T("field", (dec, "key"))), tm.unhex(tm.idx(dec, "key"))]
+    suffix = [tm.truth(T("field", (dec, "data"))), tm.truth(tm.idx(dec, "data"))]
+    for kind in ("p2pkh", "p2wpkh", "p2sh-p2wpkh"):
+        ev.assumptions = {tm.truth(sk): True, tm.cmp("is", flag, None): False, tm.cmp("gt", tm.length(sk), 1): False}
+        ev.bind = {kind_t: kind}
+        s = ev.run(fi)
+        pubs = [c for c in s.calls if c[0] == "bits.keys.pub"]
+        bad = []
+        for c in pubs:
+            k_ = c[1][0] if c[1] else c[2].get("privkey_", c[2].get("key"))
+            comp = c[2].get("compressed", c[1][1] if len(c[1]) > 1 else False)
+            okk = any(tm.veq(k_, w) for w in keys_)
+            okc = any(tm.veq(comp, w) for w in suffix) if kind == "p2pkh" else comp is True
+            if not (okk and okc):
+                bad.append((c[3].lineno, tm.show(k_)[:60], tm.show(comp)[:60]))
+        R.check(oid, "PROV", fi, "sender kind %s: the revealed public key is pub(decoded WIF key, compressed=%s) at each of %d sites" % (
+            kind, "bool(WIF suffix)" if kind == "p2pkh" else "True", len(pubs)), bool(pubs) and not bad,
+            "line %s: the public key is derived as pub(%s, compressed=%s)" % (bad[0] if bad else ("?", "?", "?")), line=bad[0][0] if bad else None,
+            example="a p2pkh sender whose WIF has no compression suffix (its output commits to the 65-byte key)" if kind == "p2pkh" else "a compressed-key sender")
     ev.assumptions, ev.bind = {}, {}
 
 
@@ -414,6 +449,12 @@ def check_message_call(ctx, oid="C16.2", kinds=("p2wpkh", "p2wsh")):
         R.check(oid, "TYPE", fi, "%s: signed amount = the input's exact satoshi value" % kind,
                 bool(bvs) and tm.veq(amt_eff, T("round", (tm.mul([1e8, T("field", (bvs[0], "amount"))]),), tm.INT)),
                 "the signed amount is %s" % tm.show(amt_eff)[:160], example="an amount such as 0.29 BTC (float product truncates to 28999999)")
+        if kind in ("p2wsh", "p2sh-p2wsh"):
+            # BIP143 item 5: the scriptCode of a P2WSH input is the witness script, whole, behind its CompactSize length
+            rs_ = [t for t in tm.subterms(args[3]) if isinstance(t, T) and t.op == "unhex"]
+            R.check(oid, "TERM-EQ", fi, "%s: scriptCode = CompactSize(len(witness script)) || witness script (taken whole)" % kind,
+                    bool(rs_) and tm.veq(args[3], tm.cat([tm.app("bits.utils.compact_size_uint", [tm.length(rs_[0])], ty=tm.BYTES), rs_[0]])),
+                    "the scriptCode handed to witness_message is %s" % tm.show(args[3])[:200], example="a witness script whose pushed data contains the byte 0xab")
         # the message is built over the list of inputs exactly as the selection loop produced it (same order as the amounts the
         # messages are enumerated from), and that same list goes into the transaction
         txc = [c for c in s.calls if c[0] == "bits.tx.tx"]
